@@ -74,7 +74,10 @@ impl TryFrom<SubjectPublicKeyInfoRef<'_>> for Sm2PublicKey {
             .subject_public_key
             .as_bytes()
             .ok_or_else(|| der::Tag::BitString.value_error())?;
-        Ok(Sm2PublicKey::new(public_key_bytes).unwrap())
+        match Sm2PublicKey::new(public_key_bytes) {
+            Ok(pk) => Ok(pk),
+            Err(_) => Err(pkcs8::spki::Error::KeyMalformed),
+        }
     }
 }
 
